@@ -27,6 +27,7 @@ pub enum Op {
     SendAttached,
     Recv,
     TryRecvMsg,
+    TimedRecvMsg,
     TryRecvEmpty,
     TransferReceiver,
     SetAddSelect,
@@ -39,7 +40,7 @@ pub enum Op {
     RouterRouteClose,
 }
 
-pub const ALL: [Op; 18] = [
+pub const ALL: [Op; 19] = [
     Op::Channel,
     Op::BytesChannel,
     Op::CloneSender,
@@ -48,6 +49,7 @@ pub const ALL: [Op; 18] = [
     Op::SendAttached,
     Op::Recv,
     Op::TryRecvMsg,
+    Op::TimedRecvMsg,
     Op::TryRecvEmpty,
     Op::TransferReceiver,
     Op::SetAddSelect,
@@ -142,14 +144,16 @@ fn apply(st: &mut St, op: Op) -> Result<(), String> {
                 st.misc.push(Box::new(t2));
             }
         },
-        Op::Recv | Op::TryRecvMsg => {
+        Op::Recv | Op::TryRecvMsg | Op::TimedRecvMsg => {
             let c = last(st)?;
             if c.queued > 0 {
                 if let Some(r) = &c.rx {
                     let (_, atts) = if op == Op::Recv {
                         r.recv().map_err(|e| format!("recv: {:?}", e))?
-                    } else {
+                    } else if op == Op::TryRecvMsg {
                         r.try_recv().map_err(|e| format!("try_recv: {:?}", e))?
+                    } else {
+                        r.try_recv_timeout(std::time::Duration::from_millis(5)).map_err(|e| format!("try_recv_timeout: {:?}", e))?
                     };
                     c.queued -= 1;
                     for a in atts {
@@ -417,7 +421,7 @@ pub fn run(tier: Tier, _part: bool) -> i32 {
     }
     rep.set("evaluations", json!(n));
     rep.set("distinct_nontrivial", json!(distinct.len()));
-    rep.set("rule", json!("case = operation sequence of length <= 3 (4 thorough) over 18 public-API operations (channel, bytes channel, clone, send small / 3-packet / with sender+receiver+region, recv, try_recv of a message, try_recv on empty, transfer receiver, set add+select, region create / clone, one-shot round trip / dropped unused, connect to a non-existent name, send to a closed receiver, private router route + shutdown) x drop order forward / reverse; ledger in no-reuse numbering mode, /proc/self/fd + maps + temp-root listing compared with the start, exec'ed child lists what it inherited (all cases of length <= 2 and every 3rd longer one); distinct_nontrivial = passing sequences of length >= 2"));
+    rep.set("rule", json!("case = operation sequence of length <= 3 (4 thorough) over 19 public-API operations (channel, bytes channel, clone, send small / 3-packet / with sender+receiver+region, recv, try_recv and try_recv_timeout of a message, try_recv on empty, transfer receiver, set add+select, region create / clone, one-shot round trip / dropped unused, connect to a non-existent name, send to a closed receiver, private router route + shutdown) x drop order forward / reverse; ledger in no-reuse numbering mode, /proc/self/fd + maps + temp-root listing compared with the start, exec'ed child lists what it inherited (all cases of length <= 2 and every 3rd longer one); distinct_nontrivial = passing sequences of length >= 2"));
     rep.set("exhaustive", json!(true));
     rep.sample(serde_json::to_value(&cs[cs.len() / 2]).unwrap());
     rep.sample(serde_json::to_value(&cs[cs.len() - 1]).unwrap());
